@@ -247,5 +247,5 @@ PROPS["C16"] = dict(
 
 NOT_APPLICABLE = [
  dict(property_id="C05", reason="slice lengths go through ceil(float) and an 8-way sign/None case split on run-time values; no sound static argument in reach, and weaker structural proxies are not necessary conditions (DESIGN §3 C05)"),
- dict(property_id="C17", reason="floating-point results of long view pipelines with tolerance; nothing structural that is also necessary (DESIGN §3 C17). Tried: the pooling output-shape formula is computed in float (ceil/floor of a float quotient), out of reach of E1; the pad stage (index::pad, view::pad) is integer-only and is proved under C02/C15"),
+ dict(property_id="C17", reason="floating-point results of long view pipelines with tolerance; nothing structural that is also necessary (DESIGN §3 C17). Tried: the pooling output-shape formula is computed in float (ceil/floor of a float quotient), out of reach of E1; the pad stage (index::pad, view::pad) is integer-only and is proved under C02/C15; the constant-shape device that decides C16 was tried on conv1d (shape (1,CI,L) x (CO,CI,KW)): the output shape discharges, the element law leaves residuals in every instance (the convnd pipeline does not fold), so nothing is claimed"),
 ]
